@@ -20,17 +20,31 @@ from tools.gen import libgen
 LEVEL = "proof"
 MANIFEST = dict(
     category="proof",
-    text="Lean 4 theorems on a model of WrapFlags/PromoteWrap and of the driver's emitter gating: after promotion a container's "
-         "flag for a language is the OR of its own flag and all descendants' flags (induction on the tree); a language that is off "
-         "everywhere writes nothing; the C and Fortran emitters run before and independently of the Python/Lua flags; default-"
-         "argument clones inherit the function's C/Fortran flags; table theorems over regenerated AST-scan data: every C/Fortran "
-         "write site is paired with the matching cfiles/ffiles append and each emitter writes only into its own directory. "
-         "The model is tied to the code by flag correspondence on generated libraries; an implementation-only oracle checks "
-         "listings, file lists and byte-identity over all flag combinations and overrides.",
-    design="3 C15",
-    note="Trusted: Lean kernel; translator AST scan (tools/extract_flags.py); hand-written flags model validated on generated "
-         "libraries only. 'Every consumer honours wrap.L' is established by the oracle (exploration), not proved.",
-    technique="Lean 4 proof (tree induction, decide +kernel over regenerated write-site table) + differential correspondence + directory oracle",
+    text="Lean 4 theorems on a model of WrapFlags, of node construction (flags = the node's own options block over the "
+         "enclosing scopes: init_own_block_wins, init_inherits, init_default), of every clone-making step of "
+         "generate.GenFunctions (template instantiation, default arguments, return_this, arg_to_CFI, arg_to_buffer with "
+         "result_as_arg, fortran_generic) and of PromoteWrap and the driver's emitter gating. Proved for all trees, all "
+         "generation histories (steps applied to a function and recursively to its clones) and all variants: a node and every "
+         "clone made from it stay within the languages its declaration has on (step_within, family_within, "
+         "off_for_declaration_off_for_family); only template instantiation makes a clone wrapped for Python/Lua; a function "
+         "not wrapped for Fortran gets no Fortran/bufferify/CFI clone; after promotion a container's flag is the OR over its "
+         "subtree; a language off everywhere writes nothing; the C and Fortran emitters run before and independently of the "
+         "Python/Lua flags. Table theorems over regenerated AST scans: write sites paired with cfiles/ffiles appends, emitters "
+         "write only into their own directories, emitter order, the wrap defaults, every wrap.assign site of generate.py is "
+         "one the model has, every direct wrap.<lang> write switches a language off. The model is tied to the code by "
+         "differential correspondence: WrapFlags operation sequences, promotion of real trees, every clone step and every "
+         "node construction observed in real runs on generated libraries (incl. fortran_generic, templates, assumed rank, "
+         "return_this, strings, F_CFI on/off, overrides at every level) replayed on the compiled model. An implementation-only "
+         "oracle checks listings, --cfiles/--ffiles, directories, byte identity of C/Fortran files over all flag combinations, "
+         "overrides at function/method/class/namespace level, the selection stated on the command line (--option, both "
+         "spellings), and that no function or clone is wrapped for a language its declaration switches off.",
+    design="3 C15, 9.4, 9.9",
+    note="Trusted: Lean kernel; translator AST scans (tools/extract_flags.py); hand-written flags model validated on generated "
+         "libraries only; the step spy takes 'which clones were appended' (count/tags) and two content facts computed from the "
+         "declaration's types as inputs and compares the flags. 'Every consumer honours wrap.L' is established by the oracle "
+         "(exploration), not proved.",
+    technique="Lean 4 proof (tree induction, mutual induction over generation histories, decide +kernel over regenerated tables) "
+              "+ differential correspondence (compiled model driver) + directory oracle",
 )
 MODULES = ["ShroudVerif.Props.C15"]
 THEOREMS = {
@@ -44,6 +58,18 @@ THEOREMS = {
         "Shroud.Flags.write_sites_registered",
         "Shroud.Flags.emitters_use_own_directory",
         "Shroud.Flags.emitter_order",
+        "Shroud.Flags.init_own_block_wins",
+        "Shroud.Flags.init_inherits",
+        "Shroud.Flags.init_default",
+        "Shroud.Flags.wrap_defaults_regenerated",
+        "Shroud.Flags.step_within",
+        "Shroud.Flags.family_within",
+        "Shroud.Flags.off_for_declaration_off_for_family",
+        "Shroud.Flags.only_templates_clone_for_scripting",
+        "Shroud.Flags.no_fortran_clone_without_fortran",
+        "Shroud.Flags.clone_assign_sites",
+        "Shroud.Flags.direct_writes_only_switch_off",
+        "Shroud.Flags.clear_sites",
     ]
 }
 
@@ -90,7 +116,7 @@ DIRMODES = {
 }
 
 
-def run_config(work, tag, lib, flags, overrides=None, dirmode="distinct"):
+def run_config(work, tag, lib, flags, overrides=None, dirmode="distinct", cli=None):
     """Run real Shroud with the output-directory options assigned per `dirmode` (kinds not assigned fall
     back to --outdir).  Returns dict with listings; res["dirs"][kind] is the directory designated for that kind."""
     d = os.path.join(work, tag)
@@ -102,6 +128,13 @@ def run_config(work, tag, lib, flags, overrides=None, dirmode="distinct"):
     for p in set(dirs.values()):
         os.makedirs(p, exist_ok=True)
     lib.options = dict(wrap_c=bool(flags[0]), wrap_fortran=bool(flags[1]), wrap_python=bool(flags[2]), wrap_lua=bool(flags[3]))
+    cmdline = []
+    if cli is not None:
+        # the selection is stated on the command line (--option name=value, which replaces the YAML value);
+        # the YAML states the opposite.  `cli` maps option name -> spelling of the boolean.
+        for name in list(lib.options):
+            cmdline.append("%s=%s" % (name, cli[name]))
+            lib.options[name] = not lib.options[name]
     import copy
     dd = copy.deepcopy(lib.todict())
     if overrides:
@@ -122,8 +155,8 @@ def run_config(work, tag, lib, flags, overrides=None, dirmode="distinct"):
         kw["outdir_lua"] = dirs["lua"]
     if "yaml" in assigned:
         kw["outdir_yaml"] = dirs["yaml"]
-    cfg, exc, out = shroudrun.run_inproc([y], dirs["out"], logdir=dirs["log"], cfiles=cf, ffiles=ff, **kw)
-    res = {"exc": exc, "dirs": dirs, "yaml": open(y).read(), "flags": flags, "overrides": overrides, "dirmode": dirmode}
+    cfg, exc, out = shroudrun.run_inproc([y], dirs["out"], logdir=dirs["log"], cfiles=cf, ffiles=ff, options=cmdline, **kw)
+    res = {"exc": exc, "dirs": dirs, "yaml": open(y).read(), "flags": flags, "overrides": overrides, "dirmode": dirmode, "cmdline": cmdline}
     # listings keyed by physical directory role: a directory shared by several kinds is listed once under "out"
     phys = {}
     for k in ("out", "cf", "py", "lua", "yaml", "log"):
@@ -161,7 +194,8 @@ def text_of(res, kind):
 
 def check_config(ctx, res, tag):
     """single-run obligations: listings, directories, file lists"""
-    rp = {"yaml": res["yaml"], "flags": res["flags"], "overrides": res["overrides"], "dirmode": res.get("dirmode")}
+    rp = {"yaml": res["yaml"], "flags": res["flags"], "overrides": res["overrides"], "dirmode": res.get("dirmode"),
+          "command_line_options": res.get("cmdline")}
     if res["exc"] is not None:
         ctx.fail("c15:exception:%s" % type(res["exc"]).__name__, "Shroud failed on an admitted description: %r" % (res["exc"],), rp)
         return
@@ -246,6 +280,28 @@ def run(ctx):
                     ctx.nontrivial((lname, dm, f))
                     check_config(ctx, res, lname)
                     common.rmtree(os.path.dirname(res["dirs"]["out"]))
+            # the same selection stated with --option on the command line (both spellings of each boolean):
+            # same obligations, and the same bytes as when it is stated in the YAML file
+            SPELL = {True: ("true", "True"), False: ("false", "False")}
+            for f in (combos if thorough else r.sample(combos, 4)):
+                names = ("wrap_c", "wrap_fortran", "wrap_python", "wrap_lua")
+                cli = {nm: r.choice(SPELL[bool(v)]) for nm, v in zip(names, f)}
+                res = run_config(work, "%s-cli-%d%d%d%d" % ((lname,) + f), lib, f, cli=cli)
+                ctx.count(1)
+                ctx.nontrivial((lname, "cli", f))
+                check_config(ctx, res, lname)
+                if res["exc"] is None:
+                    ref = results[f]
+                    for kdir in ("cf", "py", "lua"):
+                        a, b = ref["tree"][ref["phys"][kdir]], res["tree"][res["phys"][kdir]]
+                        d = sorted(x for x in set(a) | set(b) if a.get(x) != b.get(x))
+                        if d:
+                            ctx.fail("c15:command-line-selection-differs:%s" % d[0],
+                                     "stating the selection as --option %s gives different files than stating it in the YAML file: %s" % (
+                                         " --option ".join(res["cmdline"]), d[:4]),
+                                     {"yaml": res["yaml"], "command_line_options": res["cmdline"], "files": d[:8]})
+                            break
+                common.rmtree(os.path.dirname(res["dirs"]["out"]))
             # byte identity of C and Fortran files across python/lua on/off
             for wc, wf in ((0, 0), (1, 0), (1, 1)):
                 ref = results[(wc, wf, 0, 0)]
@@ -302,8 +358,12 @@ def run(ctx):
                     ins = [k for k, t in enumerate(top) if t.startswith("namespace qns")][0]
                     targets.append(((icls, 2), "qmeth0"))
                     targets.append(((ins, 1, 0, 0), "qfun7"))      # three namespaces deep
+                    targets.append(((icls,), "qcls"))              # the option written on the class itself
+                    targets.append(((ins,), "qfun6"))              # the option written on the namespace
+                # names that a target's option also governs (declared inside it): never "siblings"
+                inside = {"qcls": ("qmeth0",), "qfun6": ("qfun7",)}
                 optn = {"c": "wrap_c", "fortran": "wrap_fortran", "python": "wrap_python", "lua": "wrap_lua"}
-                for path, fname in targets if thorough else (targets[:2] + targets[-1:]):
+                for path, fname in targets if thorough else (targets[:2] + targets[-3:]):
                     for kind in KINDS:
                         # library on, declaration off
                         ov = [(path, {optn[kind]: False})]
@@ -317,11 +377,18 @@ def run(ctx):
                             ctx.fail("c15:exception:%s" % type(res["exc"]).__name__, "override run failed: %r" % (res["exc"],),
                                      {"yaml": res["yaml"]})
                             continue
+                        if fname == "qcls" and kind == "c":
+                            # the C types header declares the capsule struct of every class (arguments of other
+                            # functions may need it); what is switched off is the class's wrapper functions
+                            fname_k = "qmeth0"
+                        else:
+                            fname_k = fname
                         txt = text_of(res, kind)
-                        if re.search(PRESENT[kind] % fname, txt):
+                        if re.search(PRESENT[kind] % fname_k, txt):
                             ctx.fail("c15:declaration-off-but-present:%s:%s" % (kind, fname),
                                      "%s has %s: false but appears in the %s output" % (fname, optn[kind], kind), {"yaml": res["yaml"]})
-                        others = [t for _, t in targets if t != fname and not t.startswith("qmeth")]
+                        others = [t for _, t in targets if t != fname and not t.startswith("qmeth") and t != "qcls"
+                                  and t not in inside.get(fname, ())]
                         if others and not (kind == "c" and lname == "c") and not re.search(PRESENT[kind] % others[0], txt):
                             ctx.fail("c15:sibling-missing:%s:%s" % (kind, others[0]),
                                      "sibling %s disappeared from the %s output" % (others[0], kind), {"yaml": res["yaml"]})
@@ -340,7 +407,7 @@ def run(ctx):
                             continue
                         check_config(ctx, res, lname)
                         txt = text_of(res, kind)
-                        if not (kind == "c" and lname == "c") and not re.search(PRESENT[kind] % fname, txt):
+                        if not (kind == "c" and lname == "c") and not re.search(PRESENT[kind] % fname_k, txt):
                             ctx.fail("c15:declaration-on-but-absent:%s:%s" % (kind, fname),
                                      "%s has %s: true (library level off) but does not appear in the %s output" % (fname, optn[kind], kind),
                                      {"yaml": res["yaml"]})
